@@ -35,10 +35,10 @@ func mutexCall(in ssa.Instruction, mu *types.Var) (string, ssa.Value, bool) {
 }
 
 type lockInfo struct {
-	p        *Prog
-	mu       *types.Var
-	expects  map[*ssa.Function]int // 1 = all callers hold the lock, 2 = no
-	named    *types.Named
+	p       *Prog
+	mu      *types.Var
+	expects map[*ssa.Function]int // 1 = all callers hold the lock, 2 = no
+	named   *types.Named
 }
 
 // heldAt: is the mutex of f's receiver held at instruction `at`?
